@@ -30,17 +30,29 @@ use context::SchedulerContext;
 use executor::{GrevmExecutor, IncarnationExecution, ParallelTransactionExecutor};
 use metrics::ExecuteMetricsCollector;
 use ordered_commit::{CommitOutcome, CommittedPrefixEnd, OrderedCommitOutput, OrderedCommitter};
+#[cfg(not(grevm_verif))]
 use parking_lot::{Mutex, MutexGuard};
+#[cfg(grevm_verif)]
+use crate::verif::sync::{Mutex, MutexGuard, atomic::AtomicBool, thread};
 use revm::DatabaseRef;
 use revm_context::{BlockEnv, CfgEnv, TxEnv, result::EVMError};
 use revm_primitives::Address;
 
+#[cfg(not(grevm_verif))]
 use std::{
     cmp::max,
     fmt::Debug,
     panic::resume_unwind,
     sync::{Arc, OnceLock, atomic::AtomicBool},
     thread,
+    time::{Duration, Instant},
+};
+#[cfg(grevm_verif)]
+use std::{
+    cmp::max,
+    fmt::Debug,
+    panic::resume_unwind,
+    sync::{Arc, OnceLock},
     time::{Duration, Instant},
 };
 use wait::WaitSlot;
